@@ -12,6 +12,9 @@ CHECKS = {
  "C18": ("model_checking", "explicit-state breadth-first search over level layouts produced by the real LevelList/Compactor, states cloned and canonicalised, invariants on every transition",
          "all level layouts reachable within the stated depth by flushes, Compact begin and Compact apply (flushes landing in between) under fourteen compactor settings; contents (Get/ScanPrefix) equal the reference after every step, sorted levels disjoint, no newer version beneath an older one, compaction reaches a fixed point from every state",
          "depth-bounded; three keys, seven flush images, at most three level-0 tables; sequence numbers rank-normalised in the state key", "DESIGN.md §5 C18"),
+ "C08": ("fault_enumeration", "bounded exhaustive history enumeration on the real dkv.DB x every crash point (snapshot of the file set after every mutating storage operation), restore of every retained handle on every snapshot vs the map captured at the Checkpoint call",
+         "every history up to depth 5-6 over put/delete/Checkpoint/retention update/restore (same or new directory)/hold+release of background work; after every storage operation following the return of a handle, a fresh dkv.Open on a copy of the files must reproduce the captured map, not panic and accept new writes",
+         "no torn writes (a completed storage operation is durable, an incomplete one invisible); GC-driven deletions are C09's subject; flush/compaction interleavings inside the quiescence wait are left to the Go scheduler in this tier", "DESIGN.md §5 C08"),
  "C17": ("exploration", "bounded exhaustive input/history enumeration on the real SST and WAL code vs reference lists",
          "every run of 0..50 entries from a 56-key universe (binary, empty, prefix-related keys; tombstone masks exhaustive up to 8 entries), whole and split at every target size, every lookup key / prefix, descriptor JSON round trip; every WAL history over put/delete/cut/truncate/rotate+save up to depth 6-7 with every legal start marker",
          "bounded sizes and alphabet; MemoryFilesystem stands for all file systems", "DESIGN.md §5 C17"),
